@@ -2,19 +2,21 @@
 
 // C01 — the local store returns exactly what was uploaded, or nothing.
 //
-//   seq/*   every operation sequence up to a depth bound over a small alphabet
-//           (good uploads in several chunkings, failing uploads, reads, composite
-//           reads, existence checks) on tiny geometries: flat/hierarchical,
-//           CAS/AC policy, block-device/in-memory blocks, both index backends,
-//           validating and raw (non-validating) read paths, tiny and large index
-//   conc/*  2-3 concurrent operations forced to collide (shared sectors, rotation
-//           during an in-flight write, refresh while reading), all schedules within
-//           the deviation bound
+//	seq/*   every operation sequence up to a depth bound over a small alphabet
+//	        (good uploads in several chunkings, failing uploads, reads, composite
+//	        reads, existence checks) on tiny geometries: flat/hierarchical,
+//	        CAS/AC policy, block-device/in-memory blocks, both index backends,
+//	        validating and raw (non-validating) read paths, tiny and large index
+//	conc/*  2-3 concurrent operations forced to collide (shared sectors, rotation
+//	        during an in-flight write, refresh while reading), all schedules within
+//	        the deviation bound
 package main
 
 import (
 	"bytes"
+	"context"
 	"fmt"
+	"time"
 
 	"github.com/buildbarn/bb-storage/pkg/digest"
 	"github.com/buildbarn/bb-storage/pkg/verifshim/vsched"
@@ -28,11 +30,11 @@ import (
 )
 
 type universe struct {
-	objs    []lstore.Obj
-	parent  lstore.Obj
-	slicer  *lstore.FixedSlicer
-	acKeys  []digest.Digest
-	acVals  [][]byte
+	objs   []lstore.Obj
+	parent lstore.Obj
+	slicer *lstore.FixedSlicer
+	acKeys []digest.Digest
+	acVals [][]byte
 }
 
 func casUniverse(inst string) universe {
@@ -394,6 +396,46 @@ func seqBodyFrom(g lstore.Geometry, depth int, start string) func() {
 
 type concOp func(s *lstore.Store, m *model)
 
+// restartBody: persistent store; every sequence over {uploads sharing a block, block-sized upload, reads, one
+// step of the syncer loops, clean restart (every issued I/O operation survives)}. Uploads that were not yet
+// committed may be gone after a restart (NOT_FOUND); whatever is returned must be the uploaded bytes, and no
+// read may report an integrity error, also for objects uploaded after the restart next to restored ones.
+func restartBody(g lstore.Geometry, depth int) func() {
+	return func() {
+		s := lstore.Open(g, lstore.NewMedia(g))
+		m := &model{ok: map[string][][]byte{}}
+		objs := []lstore.Obj{lstore.CASObj("A3", "", []byte("aXy")), lstore.CASObj("B5", "", []byte("bKLMN")), lstore.CASObj("D4", "", []byte("dW9z")), lstore.CASObj("E2", "", []byte("e7")), lstore.CASObj("C8", "", []byte("c1029384"))}
+		for i := 0; i < depth; i++ {
+			k := vsched.ChooseFree("choice", 2*len(objs)+2)
+			switch {
+			case k < len(objs):
+				o := objs[k]
+				err := s.PutOK(o.Digest, o.Content)
+				vsched.Obs("P%s=%s", o.Name, status.Code(err))
+				if err == nil {
+					m.add(o.Name, o.Content)
+				}
+			case k < 2*len(objs):
+				o := objs[k-len(objs)]
+				d, err := s.Get(o.Digest)
+				vsched.Obs("G%s=%s", o.Name, status.Code(err))
+				checkRead("Get", o.Name, o.Content, d, err, m, g.Spare > 0, false)
+			case k == 2*len(objs):
+				n := s.StepSyncers(context.Background(), 1)
+				vsched.Obs("sync=%d", n)
+			default:
+				s = s.Restart(g)
+				vsched.Obs("restart blocks=%d", s.InitialBlocks)
+			}
+		}
+		for _, o := range objs {
+			d, err := s.Get(o.Digest)
+			checkRead("final Get", o.Name, o.Content, d, err, m, false, false)
+		}
+		monitors(s)
+	}
+}
+
 func concBody(g lstore.Geometry, prefill func(s *lstore.Store, m *model), threads []concOp, final func(s *lstore.Store, m *model)) func() {
 	return func() {
 		med := lstore.NewMedia(g)
@@ -473,6 +515,13 @@ func main() {
 			}
 			scs = append(scs, mc.Scenario{Name: "seq-" + st + "/" + name, Space: fmt.Sprintf("as seq/%s but starting from a non-initial state (%s), depth %d", name, st, depth), Bound: 0, ShardDepth: 2, Body: seqBodyFrom(gg, depth, st), Budget: budgetDur(ev.Pick(r, 100, 900))})
 		}
+	}
+	{
+		g := base
+		g.Persistent, g.IndexOnDevice, g.Spare = true, true, 2
+		g.MinEpochInterval, g.ErrorRetry = 10*time.Second, 3*time.Second
+		d := ev.Pick(r, 5, 6)
+		scs = append(scs, mc.Scenario{Name: "seq-restart/flat-cas-dev", Space: fmt.Sprintf("persistent store: all sequences of %d operations over {Put A3/B5/D4/E2/C8, Get of each, one step of the syncer loops, clean restart} on %s", d, g), Bound: 0, ShardDepth: 2, Body: restartBody(g, d), Budget: budgetDur(ev.Pick(r, 150, 1200))})
 	}
 	scs = append(scs, concScenarios(r, base)...)
 	mc.Run(r, scs)
